@@ -100,3 +100,39 @@ Theorem C13_flat_capture : forall so delays actrl (P : nat -> Prop) (m : wmem) a
   locZ so (n_tracked so + i) = locZ so l0 -> capN so (n_tracked so + i) = capN so l0 ->
   nth i (w_c_to_s so m' T) None = Some (six (capture (wexec (dl_of delays) (capN so) (so_ops so) (env_of so m) l0) T)).
 Proof. exact KV.Proofs.WaveFlat.flat_capture. Qed.
+
+(** MEMORY LEVEL, all four c_reuse x strip_forks combinations (Proofs/WaveSimGlue.v): the region certificate of C13_flat_capture is
+    derived from the allocator invariant of every build result (C03_build_regions_all) instead of being checked per case *)
+From KV Require Import Model.Netlist Model.NetlistWf Model.WaveGlue.
+From KV Require Model.CycleSem Proofs.EndToEnd Proofs.ReuseStrip Proofs.LogicSimGlue Proofs.WaveSimGlue.
+Theorem C13_wavesim_model_capture : forall c caps reuse strip delays actrl abuf_len s extra tcap,
+  wf_netlist c -> comb_acyclic c -> KV.Proofs.EndToEnd.gates_known c -> length (c_lines c) <= length caps ->
+  KV.Proofs.WaveSimGlue.extra_ok c extra ->
+  KV.Proofs.WaveSimGlue.wave_inputs_ok c (dl_of delays) (stim_wave s extra) ->
+  (strip = true -> build_stems c true (KV.Proofs.LogicSimGlue.std_len c) <> None /\ KV.Proofs.ReuseStrip.forks_ok c /\
+     KV.Proofs.WaveSimGlue.forks_single c /\
+     KV.Proofs.WaveSimGlue.strip_side c (dl_of delays) (lcap (length (c_lines c)) caps)
+        (wexec (dl_of delays) (lcap (length (c_lines c)) caps) (build_ops c false) (wenv0 c s extra))) ->
+  exists r, wsim_case c caps reuse strip delays actrl abuf_len s extra tcap = Some r /\
+    forall p l0, KV.Model.CycleSem.snode_in c p = Some l0 ->
+      let w := wexec (dl_of delays) (lcap (length (c_lines c)) caps) (build_ops c false) (wenv0 c s extra) l0 in
+      let '(ini, a) := capture w tcap in
+      nth p (w_capt r) None = Some (ini, k_eat a, k_lst a, k_fin a, k_val a, k_ovl a) /\
+      ini = bexec (build_ops c false) (fun j => init_val (wenv0 c s extra j)) l0 /\
+      k_fin a = bexec (build_ops c false) (fun j => final_val (wenv0 c s extra j)) l0 /\
+      k_eat a = earliest w /\ k_lst a = latest w /\ k_val a = value_before w tcap /\
+      (k_ovl a = true <->
+       ovf_reach (dl_of delays) (lcap (length (c_lines c)) caps) (build_ops c false) (wenv0 c s extra) (ovf0 (wenv0 c s extra)) l0 = true).
+Proof. exact KV.Proofs.WaveSimGlue.wavesim_model_capture. Qed.
+
+(* abuf of the compared model = line-level accumulation, with or without c_reuse; accumulator a = weighted transitions of the
+   final line-level waveforms when no accumulating op is overwritten (with strip_forks: C03_wavesim_model_alias, the alias run) *)
+Theorem C13_wavesim_model_activity : forall c caps reuse delays actrl abuf_len s extra tcap,
+  wf_netlist c -> comb_acyclic c -> KV.Proofs.EndToEnd.gates_known c -> length (c_lines c) <= length caps ->
+  KV.Proofs.WaveSimGlue.extra_ok c extra ->
+  let dl := dl_of delays in let cp := lcap (length (c_lines c)) caps in let e0 := wenv0 c s extra in
+  exists r, wsim_case c caps reuse false delays actrl abuf_len s extra tcap = Some r /\
+    w_abuf r = wacc dl cp actrl (build_ops c false) e0 (repeat 0%Z abuf_len) /\
+    (KV.Proofs.WaveSimGlue.wave_inputs_ok c dl (stim_wave s extra) -> acc_once actrl 0 (build_ops c false) ->
+     forall a, a < abuf_len -> nth a (w_abuf r) 0%Z = wsa_final actrl 0 (build_ops c false) (wexec dl cp (build_ops c false) e0) a).
+Proof. exact KV.Proofs.WaveSimGlue.wavesim_model_activity. Qed.
